@@ -22,12 +22,13 @@ type GenOpts struct {
 	CancelOneIn int    // one execution in N scripts a cancellation of its own context (0 = never)
 	Outermost   string // when set, the stack's first policy is of this kind
 	MuteOneIn   int    // one instance in N registers only a random subset of its listeners (0 = all register everything)
+	PlainOneIn  int    // one instance in N is built through its package's convenience constructor (0 = never)
 }
 
 var AllKinds = []string{"retry", "retry", "breaker", "fallback", "fallback", "cache", "bulkhead", "timeout", "hedge", "limiter"}
 
 func DefaultOpts() GenOpts {
-	return GenOpts{Kinds: AllKinds, MaxPool: 5, MaxStack: 5, MaxSteps: 6, MaxScript: 6, FireOneIn: 10, Standalone: true, CancelOneIn: 8, MuteOneIn: 3}
+	return GenOpts{Kinds: AllKinds, MaxPool: 5, MaxStack: 5, MaxSteps: 6, MaxScript: 6, FireOneIn: 10, Standalone: true, CancelOneIn: 8, MuteOneIn: 3, PlainOneIn: 5}
 }
 
 func genErrName(t *rapid.T, rich bool, label string) string {
@@ -147,6 +148,23 @@ func GenInst(t *rapid.T, o GenOpts, kind string, allowFire bool) Inst {
 			in.Unit = int64(rapid.SampledFrom([]int{10, 20}).Draw(t, "rlPeriod"))
 		}
 	}
+	if o.PlainOneIn > 0 && kind != "breaker" && !(kind == "timeout" && in.Fire) && rapid.IntRange(1, o.PlainOneIn).Draw(t, "plain") == 1 {
+		// the configuration the convenience constructor documents (a breaker needs the builder for the virtual clock)
+		in.Plain = true
+		in.Mute = append([]string(nil), ListenerNames[kind]...)
+		switch kind {
+		case "retry":
+			in.MaxRetries, in.UseMaxAttempts, in.Conds, in.Abort, in.ReturnLast, in.MaxDuration, in.CancelInScheduled = 2, false, nil, nil, false, "", false
+		case "fallback":
+			in.Conds = nil
+		case "cache":
+			in.Conds, in.Key = nil, ""
+		case "bulkhead":
+			in.MaxWaitMs = 0
+		case "hedge":
+			in.MaxHedges, in.Abort = 1, nil
+		}
+	}
 	return in
 }
 
@@ -205,6 +223,14 @@ func GenScenario(t *rapid.T, o GenOpts) Scenario {
 		return false
 	}
 	hasHedge := hasKind("hedge")
+	stackCancels := func() bool {
+		for _, p := range sc.Stack {
+			if sc.Pool[p].FbCancel || sc.Pool[p].CancelInScheduled {
+				return true
+			}
+		}
+		return false
+	}
 	if hasHedge {
 		// A hedge abandons its attempts when the execution is cancelled: what is inside the hedge then finishes
 		// asynchronously, which a sequential model cannot follow. Cancellation x hedge is covered by C08/C09; here a stack
@@ -236,7 +262,7 @@ func GenScenario(t *rapid.T, o GenOpts) Scenario {
 	// listeners: some instances register only a subset of theirs (a policy must not depend on a listener being there)
 	if o.MuteOneIn > 0 {
 		for i := range sc.Pool {
-			if rapid.IntRange(1, o.MuteOneIn).Draw(t, "muteSome") != 1 {
+			if sc.Pool[i].Plain || rapid.IntRange(1, o.MuteOneIn).Draw(t, "muteSome") != 1 {
 				continue
 			}
 			for _, name := range ListenerNames[sc.Pool[i].Kind] {
@@ -315,6 +341,10 @@ func GenScenario(t *rapid.T, o GenOpts) Scenario {
 			// does a rate limiter between its zero wait and the cancellation, so only stacks without either
 			if cancelMode && !hasKind("bulkhead") && !hasKind("limiter") {
 				st.PreCancel = rapid.IntRange(0, 2).Draw(t, "preCancel") == 0
+			}
+			// the package-level functions: no context to carry a cache key or a cancellation handle
+			if !cancelMode && st.CtxKey == "" && st.Entry%4 >= 2 && !stackCancels() && rapid.IntRange(0, 5).Draw(t, "topLevel") == 0 {
+				st.TopLevel = true
 			}
 			for k := 0; k < nOut; k++ {
 				oc := Outcome{V: rapid.IntRange(0, 3).Draw(t, "v"), E: genErrName(t, o.RichErrors, "e")}
